@@ -138,6 +138,15 @@ def one_pair(ctx: Ctx, pid: str, config: str, w0, w1, rng) -> dict:
     writes = [i for i, o in enumerate(ops) if o.startswith("write:")]
     for i in writes:
         jobs.append((f"f{i}", -1, [i]))
+    # a record that cannot be removed (the removal of the old meta_ex raises), alone and together with the
+    # failure of the meta_ex write that follows it for the same module
+    removes = [i for i, o in enumerate(ops) if o.startswith("remove:") and ".meta_ex." in o]
+    for i in removes:
+        jobs.append((f"x{i}", -1, [i]))
+        name = ops[i].split(":", 1)[1]
+        later = [j for j in writes if j > i and ops[j] == "write:" + name]
+        if later:
+            jobs.append((f"xw{i}", -1, [i, later[0]]))
     nsub = ctx.pick(3, 20)
     for j in range(nsub):
         sub = sorted(rng.sample(writes, min(len(writes), rng.randint(2, 4)))) if len(writes) >= 2 else []
@@ -164,6 +173,96 @@ def pairs(ctx: Ctx):
         B.random_edit(rng, w, ["signature", "attr", "toggle_error"])
         ps.append((f"rand{i}", w0, w))
     return ps
+
+
+PLUGIN_SRC = """from mypy.plugin import Plugin
+class P(Plugin):
+    def get_function_hook(self, fullname):
+        if fullname == "lib.magic":
+            return self.hook
+        return None
+    def hook(self, ctx):
+        return ctx.api.named_generic_type("builtins.%s", [])
+def plugin(version):
+    return P
+"""
+
+
+def plugin_kill(ctx: Ctx) -> None:
+    """The edit is a change of a plugin named in the config file (every entry was computed with the old plugin).
+    The run after it is killed at sampled points; the next run is made (a) with the changed plugin and (b) after
+    the change was reverted; both must report what a cold run reports."""
+    for config in (["files-binary", "sqlite-binary"] if ctx.quick() else list(B.CONFIGS)):
+        base = os.path.join(ctx.tmp, "plug-" + config)
+        root = os.path.join(base, "src")
+        os.makedirs(root)
+        files = {"lib.py": "def magic() -> object: ...\n", "m1.py": "import lib\nx: int = lib.magic()\n",
+                 "m2.py": "import lib\ny: int = lib.magic()\n", "mypy.ini": "[mypy]\nplugins = plug.py\n"}
+        for pth, text in files.items():
+            open(os.path.join(root, pth), "w").write(text)
+            os.utime(os.path.join(root, pth), (1_700_000_002, 1_700_000_002))
+
+        def setplug(typ: str, t: int) -> None:
+            fp = os.path.join(root, "plug.py")
+            open(fp, "w").write(PLUGIN_SRC % typ)
+            os.utime(fp, (t, t))
+        args = B.CONFIGS[config] + ["--config-file", "mypy.ini"]
+        tg = ["m1.py", "m2.py"]
+        setplug("int", 1_700_000_002)
+        c0 = os.path.join(base, "cache0")
+        first = B.run_mypy(root, c0, args, targets=tg, scratch=base)
+        cold_int = B.canon_output(first)
+        setplug("str", 1_700_000_004)
+        ref = B.run_mypy(root, os.path.join(base, "cref"), args, targets=tg, want_oplog=True, scratch=base)
+        shutil.copytree(c0, os.path.join(base, "cw"))
+        warm = B.run_mypy(root, os.path.join(base, "cw"), args, targets=tg, want_oplog=True, scratch=base)
+        for r in (first, ref, warm):
+            if r.get("timeout") or r.get("status") not in (0, 1):
+                raise ToolFailure(f"plugin scenario: reference run failed: {r.get('status')} {r.get('stderr', '')[-600:]}")
+        ops = warm["ops"]
+        cold_str = B.canon_output(ref)
+        n = len(ops)
+        tail = [k for k in range(max(0, n - 8), n + 1)]
+        spread = sorted(set(range(0, n, max(1, n // ctx.pick(4, 16)))))
+        points = sorted(set(tail + spread))
+        lock = __import__("threading").Lock()
+
+        def one(k: int):
+            outs = []
+            for revert in (False, True):
+                c = os.path.join(base, f"c{k}{int(revert)}")
+                shutil.copytree(c0, c)
+                srcdir = os.path.join(base, f"s{k}{int(revert)}")
+                shutil.copytree(root, srcdir)
+                open(os.path.join(srcdir, "plug.py"), "w").write(PLUGIN_SRC % "str")
+                os.utime(os.path.join(srcdir, "plug.py"), (1_700_000_004, 1_700_000_004))
+                r1 = B.run_mypy(srcdir, c, args, targets=tg, crash_at=k, scratch=base)
+                if revert:
+                    open(os.path.join(srcdir, "plug.py"), "w").write(PLUGIN_SRC % "int")
+                    os.utime(os.path.join(srcdir, "plug.py"), (1_700_000_002, 1_700_000_002))
+                r2 = B.run_mypy(srcdir, c, args, targets=tg, scratch=base)
+                if r2.get("timeout") or r2.get("status") not in (0, 1):
+                    raise ToolFailure(f"plugin scenario: follow-up run failed: {r2.get('status')} {r2.get('stderr', '')[-600:]}")
+                d = B.diff_outputs(B.canon_output(r2), cold_int if revert else cold_str)
+                outs.append((k, revert, bool(r1.get("killed")), d))
+                shutil.rmtree(c, ignore_errors=True)
+                shutil.rmtree(srcdir, ignore_errors=True)
+            return outs
+        with ThreadPoolExecutor(max_workers=4) as ex:
+            results = [x for part in ex.map(one, points) for x in part]
+        shutil.rmtree(base, ignore_errors=True)
+        for k, revert, killed, d in results:
+            ctx.case(("plugin-kill", config, k, revert), nontrivial=True)
+            ctx.dist("fault_kind", "crash+plugin-revert" if revert else "crash-after-plugin-edit")
+            if d and not B.only_once_note_diff(d):
+                ctx.count("disagreements_checked")
+                prev = ops[k - 1] if 0 < k <= n else "<start>"
+                nxt = ops[k] if k < n else "<end>"
+                ctx.report({"class": "stale-after-fault", "window": "plugins-snapshot", "store": "sqlite" if "sqlite" in config else "files"},
+                           f"next run after a kill between '{prev}' and '{nxt}' of the run that followed a plugin edit"
+                           + (" (the plugin edit was then reverted)" if revert else "") + f" differs from the cold run ({config}): {d[:2]}",
+                           {"config": config, "files": files, "plugin_first": PLUGIN_SRC % "int", "plugin_edited": PLUGIN_SRC % "str",
+                            "crash_at": k, "reverted": revert, "ops_around": ops[max(0, k - 3):k + 2], "diff": d})
 
 
 def parallel_worker_faults(ctx: Ctx) -> None:
@@ -269,7 +368,7 @@ def main(ctx: Ctx) -> None:
                 nxt = res["ops"][fr["crash_at"]] if fr["crash_at"] < len(res["ops"]) else "<end>"
                 where = f"killed between '{prev}' and '{nxt}'" + (", then the edit was reverted" if fr.get("revert") else "")
             else:
-                where = "failed write(s): " + ", ".join(res["ops"][i] for i in fr["fail_ops"])
+                where = "failed operation(s): " + ", ".join(res["ops"][i] for i in fr["fail_ops"])
             window = "other"
             if fr["crash_at"] > 0 and OP_RE.match(res["ops"][fr["crash_at"] - 1] or "") and \
                     res["ops"][fr["crash_at"] - 1].startswith("write:") and ".meta." in res["ops"][fr["crash_at"] - 1]:
@@ -287,6 +386,7 @@ def main(ctx: Ctx) -> None:
                 ctx.report({"class": "stale-after-fault", "window": window, "store": res["config"].split("-")[0]},
                            f"{what} ({res['config']}; {where}): {d[:2]}", replay)
     parallel_worker_faults(ctx)
+    plugin_kill(ctx)
     if results:
         r = results[0]
         ctx.sample({"pair": r["pid"], "ops_of_warm_run": r["ops"], "faults_tried": len(r["faults"]),
